@@ -109,7 +109,11 @@ func simHistory(tw *trace.Writer, rng *rand.Rand, cs string, nops int, encRunes 
 		case k < 15:
 			ops = append(ops, op{kind: "SetStyle", st: tcx.RandStyle(rng, false, false)})
 		case k < 16:
-			ops = append(ops, op{kind: "ShowCursor", x: rng.Intn(w+2) - 1, y: rng.Intn(h+2) - 1})
+			if rng.Intn(3) == 0 {
+				ops = append(ops, op{kind: "HideCursor"}, op{kind: "Show"})
+			} else {
+				ops = append(ops, op{kind: "ShowCursor", x: rng.Intn(w+2) - 1, y: rng.Intn(h+2) - 1})
+			}
 		case k < 17:
 			w, h = 2+rng.Intn(6), 1+rng.Intn(3)
 			ops = append(ops, op{kind: "SetSize", w: w, h: h}, op{kind: "Show"})
@@ -182,6 +186,9 @@ func simHistory(tw *trace.Writer, rng *rand.Rand, cs string, nops int, encRunes 
 		case "ShowCursor":
 			s.ShowCursor(o.x, o.y)
 			tw.Emit(trace.Ev{"ev": "ShowCursor", "x": o.x, "y": o.y, "cursor": r.cursor()})
+		case "HideCursor":
+			s.HideCursor()
+			tw.Emit(trace.Ev{"ev": "HideCursor", "cursor": r.cursor()})
 		case "Show", "Sync":
 			if o.kind == "Show" {
 				s.Show()
